@@ -94,6 +94,12 @@ func (app *App) checkRecovery() {
 		return
 	}
 
+	if sstatus == nil {
+		// stuck local node is itself the recorded master: nothing to compare, wait for the manager
+		app.logger.Info().Msg("recovery: local node has no replica status, waiting for manager to turn us to a new master")
+		return
+	}
+
 	app.logger.Info().Msgf("recovery: master %s has GTIDs %s", master, mgtids)
 	app.logger.Info().Msgf("recovery: local node %s has GTIDs %s", localNode.Host(), sstatus.GetExecutedGtidSet())
 
